@@ -88,6 +88,15 @@ def run(tier):
     sut = vlib.sut()
     K = 6 if tier == "quick" else 30
     proc_items = [(k, f, "main.ddp") for k, f, _ in meta[:len(shapes)]] + [(k, f, m) for k, f, m in rng.sample(seeds, 25 if tier == "quick" else len(seeds))]
+    # valid multi-module programs whose initialisers depend on each other (the C10 scheme): the order of module
+    # initialisation must not vary between compilations
+    import c10
+    for g in ([[1], [2], [3], []], [[1, 2], [3], [3], []], [[2, 1], [3], [3, 1], []], [[1], [2, 3], [3], []], [[3, 2, 1], [2], [3], []]):
+        G = dict(n=len(g), imp=[[dict(t=t, sel="all") for t in imps] for imps in g])
+        files = {"main.ddp": c10.main_src(G["imp"][0]).encode()}
+        for k in range(1, G["n"]):
+            files["m%d.ddp" % k] = c10.module_src(k, G["imp"][k]).encode()
+        proc_items.append(("modules:%s" % json.dumps(g).replace(" ", ""), files, "main.ddp"))
     from concurrent.futures import ThreadPoolExecutor
 
     def proc(item):
@@ -102,7 +111,7 @@ def run(tier):
             try:
                 p = subprocess.run([os.path.join(sut, "bin", "kddp"), "kompiliere", main, "-o", out], cwd=d, env=env, stdout=subprocess.PIPE, stderr=subprocess.PIPE, timeout=120)
                 beh = ""
-                if p.returncode == 0 and os.path.exists(out) and rep < 3:
+                if p.returncode == 0 and os.path.exists(out) and (rep < 3 or key.startswith("modules:")):
                     # the behaviour of the executable (not the text of the IR, which may legitimately be ordered differently)
                     lk = subprocess.run(["gcc", "o.o", os.path.join(sut, "shim", "setlocale_wrap.o"), "-L" + os.path.join(sut, "lib"), "-lddpstdlib", "-lddpruntime", "-lm",
                                          os.path.join(sut, "lib", "main.o"), "-Wl,--wrap=setlocale", "-o", "o.out"], cwd=d, stdout=subprocess.PIPE, stderr=subprocess.STDOUT)
@@ -114,10 +123,10 @@ def run(tier):
                             beh = "run-timeout"
                     else:
                         beh = "link-failed"
-                o = (p.returncode, p.stderr.decode("utf-8", "replace"), "same-as-first-three" if rep >= 3 else beh)
+                o = (p.returncode, p.stderr.decode("utf-8", "replace"), "same-as-first-three" if (rep >= 3 and not key.startswith("modules:")) else beh)
             except subprocess.TimeoutExpired:
                 o = ("timeout",)
-            if rep >= 3:
+            if rep >= 3 and not key.startswith("modules:"):
                 o = (o[0], o[1]) if len(o) > 1 else o
                 first = [k for k, v in table.items() if v == ids[0]][0]
                 ids.append(ids[0] if (first[0], first[1]) == o else table.setdefault(o, len(table) + 1))
